@@ -36,31 +36,31 @@ CHECKS = {
              text="Exploration: all shipped offline generators x size matrix (thorough: plus random configurations) x 600 (quick) / 3000 (thorough) keys per configuration (more where a configuration asks for it); plus generate_solution feasibility for BinPack.",
              note="Sokoban dataset generators need the network (not explored). Known open findings are listed in known_findings.json.", ref="§3 C10"),
  "C11": dict(tech="runtime monitor: index of the first LAST timestep vs configured time limit / structural horizon, with a survive policy using real one-step look-ahead",
-             text="Exploration: time_limit in {1,2,3,7,odd 41-97,default} (built-in ints, NumPy / JAX scalars, and through jumanji.make overrides) on the 12 time-limited environments (never later; earlier only with a model-computed other end reason; natural end replayed exactly on the limit step) and the structural horizon of the 10 others; decided on logical step counts.",
+             text="Exploration: time_limit in {1,2,3,7,odd 41-97,300,default} (built-in ints, NumPy / JAX scalars, and through jumanji.make overrides) on the 12 time-limited environments (never later; earlier only with a model-computed other end reason; natural end replayed exactly on the limit step) and the structural horizon of the 10 others; decided on logical step counts.",
              note="Very long default limits are only checked for 'never earlier' on the quick tier.", ref="§3 C11"),
  "C12": dict(tech="runtime monitor: independent NumPy observer recomputes each observation from the state returned with it",
              text="Exploration over all environments and observer/normalisation switches: every (state, observation) pair of rollouts is compared with the documented function of the state.",
              note="Mask contents are C04's job; here only the copy.", ref="§3 C12"),
  "C13": dict(tech="differential runtime monitor: AutoResetWrapper.step vs env.step / env.reset on derived keys, side by side; loop vs scan vs vmap; shadow key history",
-             text="Exploration on every environment (short-episode configurations, runs with mixed end reasons, completing players that solve the puzzles (Snake, Sudoku, Minesweeper, SlidingTilePuzzle, RubiksCube, Maze, Cleaner), a rewarded event on the very step that ends the episode, user wrappers and MultiToSingleWrapper in between), both next_obs_in_extras settings, runs spanning many episodes under python loop, lax.scan and vmap; derived keys compared within and across runs.",
+             text="Exploration on every environment (short-episode configurations, runs with mixed end reasons, completing players that solve the puzzles (Snake, Sudoku, Minesweeper, SlidingTilePuzzle, RubiksCube, Maze, Cleaner), Knapsack instances that are trivial, a rewarded event (and the completion of a one-food LBF level) on the very step that ends the episode, user wrappers and MultiToSingleWrapper in between), both next_obs_in_extras settings, runs spanning many episodes under python loop, lax.scan and vmap; derived keys compared within and across runs.",
              note="Fresh key accepted = split/fold_in of the terminal state's key; never the terminal or original key.", ref="§3 C13"),
  "C14": dict(tech="differential runtime monitor: VmapWrapper vs per-instance; VmapAutoResetWrapper vs VmapWrapper(AutoResetWrapper) on deliberately desynchronised batches; termination-pattern counting; recording render stub",
              text="Exploration on every environment, batch sizes 3 (quick) / 1,2,5,8 (thorough) plus big batches (64 quick; 32-256 thorough) on environments whose episodes end at random times, >=50 consecutive batched steps with none/some/all terminations all observed; the same wrapper objects used with other batch sizes; render with legacy and typed keys and with host-side (NumPy-leaf) states.",
              note="Float tolerance only across differently compiled programs.", ref="§3 C14"),
  "C15": dict(tech="differential runtime monitor: Gym / dm_env / MultiToSingle adapters vs the native API on the documented key schedule; space/spec membership",
-             text="Exploration on every environment (multi-agent behind MultiToSingle with default and fractional aggregators), several seeds, resets and steps, 70/300 resets of one adapter object against the documented key schedule, several adapters alive on one environment object; terminated/truncated semantics, FIRST conventions, re-seeding, sampled actions, aggregators.",
+             text="Exploration on every environment (multi-agent behind MultiToSingle with default and fractional aggregators), several seeds, resets and steps, 70/300 resets of one adapter object against the documented key schedule, several adapters alive on one environment object, a zero-propagating discount aggregator on Connector; terminated/truncated semantics, FIRST conventions, re-seeding, sampled actions, aggregators.",
              note="gym actions are judged after the adapter's own jnp.asarray conversion.", ref="§3 C15"),
  "C16": dict(tech="property-style runtime harness with an independent membership model + icontract contracts on the real spec methods (also under the repository's own specs tests)",
-             text="Exploration: hundreds (quick) / thousands (thorough) of generated leaf and nested specs x ~20 related operations each, boundary-adjacent values for every dtype (NumPy arrays, Python scalars and nested lists), full-range narrow-dtype discrete specs, and all specs of the 23 environments.",
+             text="Exploration: hundreds (quick) / thousands (thorough) of generated leaf and nested specs x ~20 related operations each, boundary-adjacent values for every dtype (NumPy arrays, Python scalars and nested lists), full-range narrow-dtype discrete specs, values generated by pickled / deep-copied / replaced copies, and all specs of the 23 environments.",
              note="NaN and cross-class equality are outside the statement; subnormal neighbours are replaced by the smallest normal (XLA flushes subnormals).", ref="§3 C16"),
  "C17": dict(tech="exhaustive runtime enumeration against a geometric reference: every cube move on distinct-sticker cubes (sizes 2..7); BFS of the whole 2x2/3x3 sliding-puzzle state space through the real step",
-             text="Per (size, move) one execution on a distinct-label cube fixes the permutation for every colouring, so the cube-move part is universal; group identities, is_solved, encodings and generator reachability are checked on the same executions; rotated goals on even cube sizes; termination under user reward functions; sliding puzzles 2x2 fully, 3x3 fully on the thorough tier, bounded sweeps of 4x4/5x5, ordered-looking non-goal boards, moves on and after the time-limit step.",
+             text="Per (size, move) one execution on a distinct-label cube fixes the permutation for every colouring, so the cube-move part is universal; group identities, is_solved, encodings and generator reachability are checked on the same executions; rotated goals on even cube sizes; termination under user reward functions; steps after LAST; 12x12/16x16 resets; sliding puzzles 2x2 fully, 3x3 fully on the thorough tier, bounded sweeps of 4x4/5x5, ordered-looking non-goal boards, moves on and after the time-limit step.",
              note="Geometric reference uses the documented face/view conventions.", ref="§3 C17"),
  "C18": dict(tech="runtime contracts + generated id strings and register/make sequences against an independent id grammar; probe environment class recording constructor arguments",
-             text="Exploration: thousands of generated ids (allowed / disallowed alphabets, huge versions), random register/make/duplicate sequences with registry snapshots (None / falsy / array-valued kwargs, same class name in two modules), registrations holding shared generator objects (make, make with override, make again, all re-traced), and all shipped ids instantiated and compared across two make calls.",
+             text="Exploration: thousands of generated ids (allowed / disallowed alphabets, huge versions), random register/make/duplicate sequences with registry snapshots (None / falsy / array-valued kwargs, same class name in two modules, ids that are substrings of registered ids), make(id) after sibling constructions against a fresh-process fingerprint, registrations holding shared generator objects (make, make with override, make again, all re-traced), and all shipped ids instantiated and compared across two make calls.",
              note="Sokoban-v0 needs its dataset (network) and is reported as not explored.", ref="§3 C18"),
  "C19": dict(tech="runtime contracts + law-based harness on generated pytrees and real environment states",
-             text="Exploration: random nests (dict/list/tuple/namedtuple, rank 0-3, bool/int/float) and stacked real states of the 23 environments through transpose/slice/add_element/is_equal_pytree/assert helpers (NumPy and JAX leaves, wider element dtypes, promotion-lossy cross-dtype pairs, signed zeros, leaf objects shared between the trees of a batch, dicts built in another key order), judged by NumPy / exact Python oracles.",
+             text="Exploration: random nests (dict/list/tuple/namedtuple, rank 0-3, bool/int/float) and stacked real states of the 23 environments through transpose/slice/add_element/is_equal_pytree/assert helpers (NumPy and JAX leaves, wider element dtypes, promotion-lossy cross-dtype pairs, signed zeros, infinities, next-representable floats, leaf objects shared between the trees of a batch, dicts built in another key order), judged by NumPy / exact Python oracles.",
              note="NaN leaves are not generated.", ref="§3 C19"),
 }
 READY = [f"C{i:02d}" for i in range(1, 20)]
